@@ -51,6 +51,14 @@ PROPS = {
         rules=["NoPanic", "EnvelopeErr", "ParseEqRef", "MustAccept", "BuildOk", "PlainCanonical"],
         shards=12,
     ),
+    "C12": dict(
+        gen=[dict(module="Gen_Inspect", cfg="Gen_Inspect.cfg", out="inspect_cases.ndjson"),
+             dict(module="Gen_RData", cfg="Gen_RData.cfg", out="rdata_cases.ndjson"),
+             dict(module="Gen_Edns", cfg="Gen_Edns.cfg", out="edns_cases.ndjson")],
+        topic="inspect",
+        rules=["ObserverTotal"],
+        shards=12,
+    ),
     "C17": dict(
         gen=[dict(module="Gen_NameText", cfg="Gen_NameText.cfg", cfg_thorough="Gen_NameText_thorough.cfg", out="text_cases.ndjson")],
         topic="nametext",
@@ -167,5 +175,15 @@ TEXT = {
               "middle of a record."),
         note=_TRUSTED,
         technique="TLA+ envelope walker (Message.tla) as oracle; TLC-generated framing variants replayed; trace validation",
+    ),
+    "C12": dict(
+        text=("TLC generates messages carrying every byte string up to length 3 over {NUL,'a','.','\\','=',0x80,0xC3,0xA9,"
+              "0xFF} (and maximal strings) in every name and string position of TXT/HINFO/MX/NAPTR/CAA/ISDN/SOA/SRV/NSEC "
+              "records; the crate parses each and the harness applies every public observer to every part (Debug, "
+              "Display, to_string, clone, into_owned, Hash, PartialEq, match_qtype/qclass, TXT::attributes, "
+              "long_attributes, String::try_from) under catch_unwind. TLC judges each observation: never a panic; "
+              "fallible conversions succeed exactly when the bytes are well-formed UTF-8 (Bytes.tla)."),
+        note=_TRUSTED + " The observer list is the one enumerated in harness/src/inspect.rs.",
+        technique="TLC-generated wire messages parsed by the crate; observer outcomes validated by the TLA+ trace spec (UTF-8 automaton as oracle)",
     ),
 }
